@@ -81,17 +81,21 @@ def _run_batch(cmd, reqs, timeout, env=None):
             for r in pending:
                 f.write(json.dumps(r) + "\n")
             inp = f.name
+        outp = inp + ".out"
         try:
             try:
-                p = subprocess.run([HARNESS_BIN, cmd, inp], stdout=subprocess.PIPE,
+                p = subprocess.run([HARNESS_BIN, cmd, inp, outp], stdout=subprocess.DEVNULL,
                                    stderr=subprocess.PIPE, timeout=timeout * max(1, len(pending)) + 20,
                                    env=env)
-                out, rc, err = p.stdout, p.returncode, p.stderr
+                rc, err = p.returncode, p.stderr
                 timed = False
             except subprocess.TimeoutExpired as e:
-                out, rc, err, timed = e.stdout or b"", -999, e.stderr or b"", True
+                rc, err, timed = -999, e.stderr or b"", True
+            out = open(outp, "rb").read() if os.path.exists(outp) else b""
         finally:
             os.unlink(inp)
+            if os.path.exists(outp):
+                os.unlink(outp)
         lines = [l for l in out.decode("utf-8", "replace").splitlines() if l.strip()]
         got = []
         for l in lines:
